@@ -31,15 +31,16 @@ pub const C05_RULES: &[&str] = &[
     "reader_panics",
     "final_content_differs",
     "final_index_unreadable",
+    "commit_identity_differs",
 ];
-pub const C04_RULES: &[&str] = &["content_differs_after_merge", "index_unreadable_after_merge", "final_content_differs", "final_index_unreadable"];
+pub const C04_RULES: &[&str] = &["content_differs_after_merge", "index_unreadable_after_merge", "final_content_differs", "final_index_unreadable", "reload_moved_back", "commit_identity_differs"];
 /// reported for both: the harness cannot tell whose they are
 pub const SHARED_RULES: &[&str] = &["call_fails", "writer_action_panics", "scenario_panics"];
 
 pub fn belongs(prop: &str, rule: &str) -> bool {
     let own = match prop {
         "C10" => C10_RULES,
-        "C04" => C04_RULES,
+        "C04" | "C02" | "C11" => C04_RULES,
         _ => C05_RULES,
     };
     own.contains(&rule) || SHARED_RULES.contains(&rule)
@@ -47,9 +48,13 @@ pub fn belongs(prop: &str, rule: &str) -> bool {
 
 fn relevant(prop: &str, k: &Kind) -> bool {
     match (prop, k) {
-        ("C04", Kind::MergeVsOps { .. }) | ("C04", Kind::MergeVsRestart) => true,
-        ("C04", _) => false,
-        ("C05", Kind::GcVsWriters { .. }) | ("C05", Kind::MergeVsOps { .. }) => false,
+        ("C04" | "C02", Kind::MergeVsOps { .. } | Kind::MergeVsRestart { .. } | Kind::OverlappingMerges { .. } | Kind::CommitVsMergeEnd) => true,
+        ("C11" | "C04", Kind::MergeVsOpsFault { .. }) => true,
+        (_, Kind::MergeVsOpsFault { .. }) => false,
+        ("C11", _) => false,
+        ("C04" | "C02", _) => false,
+        ("C05", Kind::GcVsWriters { .. } | Kind::MergeVsOps { .. } | Kind::OverlappingMerges { .. }) => false,
+        ("C10", Kind::OverlappingMerges { .. } | Kind::CommitVsMergeEnd) => false,
         _ => true,
     }
 }
